@@ -3,6 +3,7 @@ import J5V.Codec.FaultProofs
 import J5V.Codec.FaultDocProofs
 import J5V.Codec.SpellProofs
 import J5V.Codec.QueryProofs
+import J5V.Codec.ExactProofs
 import J5V.Generated.CodecFacts
 /-!
 # C03 — decoding is exact or rejected
@@ -269,6 +270,65 @@ theorem C03_scalar_alternates (O : Oracle) (raw : Bytes) :
   · intro s
     exact ⟨by simp, _, rfl, rfl⟩
 
+/-! ## exactness, member by member (`_partial`: the composition over a whole document is missing) -/
+
+/-- **Full statement** of the first sentence's exactness half: whenever decoding succeeds, the
+document spells the resulting message (every non-null member is stored with the value it denotes
+and nothing else is stored). Not proved as a whole; proved per member below. -/
+def C03_exact_full : Prop :=
+  ∀ (c : Cfg), c.env.flat = true → ∀ (root : String) (t : PTree) (m : Fields),
+    decRootTree c root t = .ok m → SpellsRoot c root m t
+
+/-- **a successfully decoded non-null scalar member is stored with exactly the value its token
+denotes**: for every property set, every decoder state, every scalar kind — the value `vv` is one
+`scalarReflectFromGo` maps the token to (`scalarSpells`: never a coerced or truncated value), it
+is found at the proto path of the property afterwards (or it is the zero value of an
+implicit-presence field, which protobuf does not store), and every leaf of the message at an
+unrelated path (neither above nor below) is exactly as before: nothing else is lost. -/
+theorem C03_exact_scalar_member_partial (c : Cfg) (props : List PropDef) (p : PropDef)
+    (k : ScalarKind) (t : PTree) (st st' : PS) (hf : p.field = .scalar k) (hnn : t ≠ .null)
+    (hne : p.path ≠ []) (h : decProp c props p t st = .ok st') :
+    ∃ vv, scalarSpells c.O k vv t ∧
+      (getPath st'.m p.path = some vv ∨
+        ((p.pres == .imp && vv.isZero) = true ∧ getPath st'.m p.path = none)) ∧
+      ∀ x, x ≠ [] → ¬ p.path <+: x → ¬ x <+: p.path → getPath st'.m x = getPath st.m x :=
+  scalar_member_stored c props p k t st st' hf hnn hne h
+
+/-- **object level exactness (scalar members)**: whenever the member loop of an object succeeds —
+at the top level or for any nested object, array element or map value, from any decoder state —
+**every non-null scalar member** of that object is found in the resulting message at the proto
+path of its property with exactly a value its token denotes (or it is the zero value of an
+implicit-presence field, which protobuf does not store), whatever the other members of the object
+are (later members never overwrite it: `C03_set_frame`). `PathsApart`: the properties have proto
+paths none of which is a prefix of another's — what `Env.flat` gives for object roots without
+exposed oneofs. -/
+theorem C03_exact_object_scalars_partial (c : Cfg) (props : List PropDef) (hpa : PathsApart props)
+    (ms : PMembers) (st st' : PS) (term : Term)
+    (h : decObjMembers c props ms st = .ok (st', term))
+    (k : Bytes) (v : PTree) (p : PropDef) (kk : ScalarKind) (hmem : isMember k v ms)
+    (hnn : v ≠ .null) (hfp : findProp props k = some p) (hfld : p.field = .scalar kk) :
+    ∃ vv, scalarSpells c.O kk vv v ∧
+      (getPath st'.m p.path = some vv ∨
+        ((p.pres == .imp && vv.isZero) = true ∧ getPath st'.m p.path = none)) :=
+  object_scalar_members_exact c props hpa ms st st' term h k v p kk hmem hnn hfp hfld
+
+/-- **array elements**: a successfully decoded array of scalars is, element by element and in
+order, the values the element tokens denote -/
+theorem C03_exact_scalar_array_partial (c : Cfg) (k : ScalarKind) (xs : PElems) (acc l : List PVal)
+    (term : Term) (h : decElems c (.scalar k) xs acc = .ok (l, term)) :
+    ∃ vs, l = acc ++ vs ∧ elemsDenote c.O k vs xs :=
+  scalar_elems_exact c k xs acc l term h
+
+/-- **later members keep earlier ones**: `Message.Set` for property `p` — after `CreateField`
+passed its proto-oneof check — leaves every leaf at a path that is neither above nor below
+`p`'s path unchanged, whatever the message holds -/
+theorem C03_set_frame (props : List PropDef) (p : PropDef) (v : Option PVal) (kl : Nat)
+    (hkl : p.path.getLast? = some kl) (m : Fields) (x : List Nat) (hne : p.path ≠ []) (hx : x ≠ [])
+    (h1 : ¬ p.path <+: x) (h2 : ¬ x <+: p.path) (hgb : groupBusy props p m = false) :
+    getPath (updPath props p v m) x = getPath m x :=
+  getPath_updPath_frame props p v kl hkl m x hne hx h1 h2
+    (siblingsUnset_of_not_busy props p kl m hkl hgb)
+
 /-! ## scalar values supplied as URL query parameters -/
 
 /-- **C03_query_scalar**: a scalar (or enum) value supplied as the URL query parameter
@@ -421,6 +481,18 @@ example : queryDoc faultCfg (splitDot (ascii "sub.w.b")) mProps (ascii "7") =
       (.str (ascii "7") []) (.nil .closed))) (.nil .closed))) (.nil .closed))) := by
   rfl
 example : ascii "!type" ∉ splitDot (ascii "sub.w.b") := by decide
+
+/-- hypotheses of `C03_exact_scalar_member_partial` are satisfiable: `"name":"x"` is accepted -/
+example : decProp faultCfg mProps mProps[0] (.str (ascii "x") []) { m := [], seen := [] } =
+    .ok { m := [(1, .str (ascii "x"))], seen := [ascii "name"] } := by rfl
+
+/-- `PathsApart` holds for the example object -/
+example : PathsApart mProps := by
+  refine ⟨by decide, ?_⟩
+  intro p hp q hq hne
+  simp only [mProps, List.mem_cons, List.mem_singleton, List.not_mem_nil, or_false] at hp hq
+  rcases hp with rfl | rfl | rfl | rfl <;> rcases hq with rfl | rfl | rfl | rfl <;>
+    first | exact absurd rfl hne | decide
 
 example : faultEnv.flat = true := by decide
 example : valOk faultEnv toyOracle (.object "t.M")
